@@ -836,6 +836,7 @@ func (as *AbacoSource) Sample() error {
 	type SampleResult struct {
 		allpackets []*packets.Packet
 		err        error
+		started    PacketProducer // the producer, if its start() succeeded
 	}
 	sampleResults := make(chan SampleResult)
 	timeout := 2000 * time.Millisecond
@@ -847,18 +848,38 @@ func (as *AbacoSource) Sample() error {
 				return
 			}
 			p, err := pp.samplePackets(timeout)
-			sampleResults <- SampleResult{allpackets: p, err: err}
+			sampleResults <- SampleResult{allpackets: p, err: err, started: pp}
 		}(pp)
+	}
+
+	// Wait for every producer's result before acting on any error, so that no sampling goroutine
+	// is left behind and we know which producers were started.
+	allResults := make([]SampleResult, 0, len(as.producers))
+	var started []PacketProducer
+	for range as.producers {
+		results := <-sampleResults
+		allResults = append(allResults, results)
+		if results.started != nil {
+			started = append(started, results.started)
+		}
+	}
+	// If the source cannot be started, the producers started above have to be stopped again:
+	// only a running source ever reaches closeDevices(), and (e.g.) a UDP port left bound
+	// would make every later Start fail.
+	fail := func(err error) error {
+		for _, pp := range started {
+			pp.stop()
+		}
+		return err
 	}
 
 	// Now sort the packets received into the right AbacoGroups
 	as.nchan = 0
 	as.groups = make(map[GroupIndex]*AbacoGroup)
-	for range as.producers {
-		results := <-sampleResults
+	for _, results := range allResults {
 		now := time.Now()
 		if results.err != nil {
-			return results.err
+			return fail(results.err)
 		}
 		// Create new AbacoGroup for each GroupIndex seen
 		for _, p := range results.allpackets {
@@ -874,6 +895,10 @@ func (as *AbacoSource) Sample() error {
 		as.distributePackets(results.allpackets, now)
 	}
 
+	if as.nchan <= 0 {
+		return fail(fmt.Errorf("no Abaco data packets arrived within %v", timeout))
+	}
+
 	// Verify that no channel # appears in 2 groups.
 	known := make(map[int]bool)
 	for _, g := range as.groups {
@@ -881,7 +906,7 @@ func (as *AbacoSource) Sample() error {
 		cend := cinit + g.index.Nchan
 		for cnum := cinit; cnum < cend; cnum++ {
 			if known[cnum] {
-				return fmt.Errorf("channel group %v sees channel %d, which was in another group", g.index, cnum)
+				return fail(fmt.Errorf("channel group %v sees channel %d, which was in another group", g.index, cnum))
 			}
 			known[cnum] = true
 		}
